@@ -28,6 +28,7 @@ type KSCase struct {
 	Extra   int        `json:"shareExtraLevels"` // shares are allocated Extra levels above the ciphertext (clamped)
 	InPlace bool       `json:"inPlace"`          // KeySwitch(ct, share, ct)
 	Shallow bool       `json:"shallow"`          // parties use ShallowCopy()s of one protocol instance
+	Meta    bool       `json:"nonDefaultMeta"`   // the input ciphertext carries a non-default scale, sparse dimensions, IsBatched flag
 	C0Nil   bool       `json:"c0Nil"`            // GenShare receives the ciphertext without its degree-0 part (documented as unused)
 	Dirty   bool       `json:"dirtyReceivers"`   // shares handed to GenShare / AggregateShares hold earlier content
 	Level2  int        `json:"level2"`           // level of a second ciphertext sent through the same protocol instances, keys and receiver (-1: none)
@@ -56,6 +57,7 @@ func genKS(t *rapid.T) KSCase {
 	c.Shallow = rapid.Bool().Draw(t, "shallow")
 	c.Dirty = rapid.Bool().Draw(t, "dirty")
 	c.C0Nil = rapid.IntRange(0, 2).Draw(t, "c0nil") == 0
+	c.Meta = rapid.IntRange(0, 2).Draw(t, "meta") > 0
 	c.Level2 = -1
 	if rapid.Bool().Draw(t, "second") {
 		c.Level2 = rapid.IntRange(0, len(c.Params.Q)-1).Draw(t, "level2")
@@ -144,9 +146,21 @@ func runKSRound(c KSCase, rec *h.Rec, st *ksState, level int, seed uint64, first
 	// plaintext: uniformly random element of R_Q at the level (the protocol is linear, the oracle exact up to noise)
 	pt := rlwe.NewPlaintext(params, level)
 	uniformPoly(ringQ, pt.Value, rng)
+	if c.Meta {
+		// metadata that differs from what a freshly allocated receiver carries (and between the two ciphertexts of a case)
+		pt.Scale = rlwe.NewScale(float64(3+rng.Intn(1<<20)) + 0.5)
+		pt.LogDimensions = ring.Dimensions{Rows: rng.Intn(2), Cols: rng.Intn(params.LogN())}
+		pt.IsBatched = rng.Intn(2) == 0
+		if first {
+			rec.Class("input-metadata=non-default")
+		}
+	}
 	ct := rlwe.NewCiphertext(params, 1, level)
 	if err := rlwe.NewEncryptor(params, in.ideal).Encrypt(pt, ct); err != nil {
 		return h.Failf("C16:setup:encrypt", "%v", err)
+	}
+	if !ct.MetaData.Equal(pt.MetaData) {
+		return h.Failf("C16:harness:encrypt-metadata", "Encrypt did not carry the plaintext metadata over")
 	}
 	ctOrig := ct.CopyNew()
 
